@@ -4,12 +4,19 @@ from . import core
 ID = "C16"
 DRIVER = "name"
 COQ_TARGETS = ["Properties/C16.vo"]
-THEOREMS = ["C16_subdomain_is_suffix"]
+THEOREMS = ["C16_from_labels_wf", "C16_from_labels_complete", "C16_dotted_complete", "C16_dotted_wf",
+            "C16_wire_wf", "C16_join", "C16_make_subdomain", "C16_case_insensitive",
+            "C16_label_case_insensitive", "C16_dotted_roundtrip", "C16_subdomain_is_suffix",
+            "C16_zones_get_longest_suffix"]
 RULE = ("cases: label sequences with lengths from {0,1,2,62,63,64} and totals sweeping 250..260, dotted strings over an "
         "alphabet with '.', both cases, empty labels and non-ASCII, wire names with/without pointers, origin joins, "
         "zone selection; non-trivial = distinct case line whose model result is not the trivial rejection of an empty input")
 ASSUMPTIONS = ["Label values are built through Label::try_from/Label::new (the field is private): every label in a "
-               "from_labels argument is <= 63 octets and lower-case"]
+               "from_labels argument is <= 63 octets and lower-case",
+               "C16_wire_wf: the cursor's remaining octets are octets (< 256) -- in Rust the cursor is a position in the same &[u8]",
+               "C16_join: the 'origin is a suffix of the joined name' clause is stated for origins with ASCII dot-free labels: "
+               "from_relative_dotted_string re-reads the origin through its dotted text (Latin-1 -> UTF-8, split on '.'), so an "
+               "origin label holding a dot or a non-ASCII octet is re-split/re-encoded (well-formedness of the result holds unconditionally)"]
 
 
 def hexb(b):
